@@ -21,6 +21,8 @@ func propC09(r *Report, tier string) {
 	ruleResultMerges(r, "K9b-result-merge")
 	ruleHitsInCurrentPage(r, "K5-page-after-sort")
 	rulePageTrimCoversSizeZero(r, "K5-page-trim-covers-size-zero")
+	// member facet results are merged range by range through Same()
+	ruleOptionalFieldEqualityKeepsAbsence(r, "K9b-optional-bound-equality", "search")
 	// the alias decides from ExtractFields whether the synonym / bm25 pre-search phase is needed
 	ruleCompoundSwitchCoverage(r, "K13-compound-coverage")
 	ruleAccumulatingWalkVisitsWholeTree(r, "K13-accumulating-walk-whole-tree", "search/query")
@@ -49,14 +51,41 @@ func ruleCopySearchRequest(r *Report, rule string) {
 		}
 		return true
 	})
-	if lit == nil {
-		undecidedf("%s: SearchRequest literal not found", fi.Name)
-	}
 	vals := map[string]ast.Expr{}
-	for _, el := range lit.Elts {
-		if kv, ok := el.(*ast.KeyValueExpr); ok {
-			vals[kv.Key.(*ast.Ident).Name] = kv.Value
+	anchor := fi.Decl.Pos()
+	if lit != nil {
+		anchor = lit.Pos()
+		for _, el := range lit.Elts {
+			if kv, ok := el.(*ast.KeyValueExpr); ok {
+				vals[kv.Key.(*ast.Ident).Name] = kv.Value
+			}
 		}
+	}
+	// the same object built field by field: `rv.F = v` on a local of type (*)SearchRequest
+	ast.Inspect(fi.Decl.Body, func(n ast.Node) bool {
+		as, ok := n.(*ast.AssignStmt)
+		if !ok || len(as.Lhs) != len(as.Rhs) {
+			return true
+		}
+		for k, l := range as.Lhs {
+			sel, ok := ast.Unparen(l).(*ast.SelectorExpr)
+			if !ok {
+				continue
+			}
+			base, isVar := objOf(info, sel.X).(*types.Var)
+			if !isVar || base == reqParam || base.IsField() {
+				continue
+			}
+			if nt := namedOf(info.TypeOf(sel.X)); nt != nil && nt.Obj().Name() == "SearchRequest" {
+				if _, dup := vals[sel.Sel.Name]; !dup {
+					vals[sel.Sel.Name] = as.Rhs[k]
+				}
+			}
+		}
+		return true
+	})
+	if len(vals) == 0 {
+		undecidedf("%s: the member request is built neither by a literal nor field by field", fi.Name)
 	}
 	allow := map[string]string{
 		"ClientContextID": "opaque client tag; members do not need it",
@@ -75,9 +104,9 @@ func ruleCopySearchRequest(r *Report, rule string) {
 		case "Size":
 			be, ok := ast.Unparen(v).(*ast.BinaryExpr)
 			okv := ok && be.Op == token.ADD && ((isField(info, be.X, "SearchRequest", "Size") && isField(info, be.Y, "SearchRequest", "From")) || (isField(info, be.X, "SearchRequest", "From") && isField(info, be.Y, "SearchRequest", "Size")))
-			r.Ob(rule, "SearchRequest.Size=Size+From", lit.Pos(), has && okv, "each member is asked for req.Size+req.From hits (any of them could fill the whole page)")
+			r.Ob(rule, "SearchRequest.Size=Size+From", anchor, has && okv, "each member is asked for req.Size+req.From hits (any of them could fill the whole page)")
 		case "From":
-			r.Ob(rule, "SearchRequest.From=0", lit.Pos(), has && exprStr(v) == "0", "each member returns its hits from offset 0 (the offset is applied once, after merging)")
+			r.Ob(rule, "SearchRequest.From=0", anchor, has && exprStr(v) == "0", "each member returns its hits from offset 0 (the offset is applied once, after merging)")
 		case "Sort":
 			okv := false
 			if c, ok := ast.Unparen(v).(*ast.CallExpr); ok {
@@ -85,10 +114,10 @@ func ruleCopySearchRequest(r *Report, rule string) {
 					okv = true
 				}
 			}
-			r.Ob(rule, "SearchRequest.Sort=Copy()", lit.Pos(), has && okv, "each member gets its own copy of the sort order (sort objects carry per-search scratch state)")
+			r.Ob(rule, "SearchRequest.Sort=Copy()", anchor, has && okv, "each member gets its own copy of the sort order (sort objects carry per-search scratch state)")
 		default:
 			okv := has && isField(info, v, "SearchRequest", f.Name()) && objOf(info, ast.Unparen(v).(*ast.SelectorExpr).X) == reqParam
-			r.Ob(rule, "SearchRequest."+f.Name()+"-carried", lit.Pos(), okv, "request field "+f.Name()+" must be passed on to every member unchanged (a dropped field changes what members return)")
+			r.Ob(rule, "SearchRequest."+f.Name()+"-carried", anchor, okv, "request field "+f.Name()+" must be passed on to every member unchanged (a dropped field changes what members return)")
 		}
 	}
 }
